@@ -145,6 +145,53 @@ def network_checks(rep, rng):
             rep.violation("network", "network:rejected-valid", {"exc": repr(e)[:200]})
 
 
+def network_membership(rep, cases, rng, n):
+    """A network accepts a reaction exactly when every species its equation names is declared - whichever side names it,
+    whatever the other side holds (empty sides included), through the constructor and through the dictionary reader."""
+    from strengths import rdnetwork_from_dict
+    stats = {"accepted": 0, "refused": 0, "tried_valid": 0, "tried_undeclared_product_with_empty_reactant_side": 0}
+    for c in rng.sample(cases, min(len(cases), n)):
+        toks = c["tight"]
+        swap = rng.random() < 0.5
+        if swap:
+            i = [k for k, t in enumerate(toks) if t[0] == "->"][0]
+            toks = toks[i + 1:] + [[" "]] + [["->"]] + [[" "]] + toks[:i]
+        text = text_of(toks)
+        i = [k for k, t in enumerate(toks) if t[0] == "->"][0]
+        left = {t[1] for t in toks[:i] if t[0] == "l"}
+        named = {t[1] for t in toks if t[0] == "l"}
+        if not named:
+            continue
+        # declare everything, or leave exactly one named species out
+        missing = rng.choice(sorted(named)) if rng.random() < 0.7 else None
+        declared = [l for l in LABELS if l != missing]
+        rng.shuffle(declared)
+        for how in ("constructor", "dictionary"):
+            rep.case(["network-membership", text, missing, how])
+            try:
+                if how == "constructor":
+                    RDNetwork(species=[Species(l) for l in declared], reactions=[Reaction(text)])
+                else:
+                    rdnetwork_from_dict({"species": [{"label": l} for l in declared], "reactions": [{"eq": text}]})
+                accepted = True
+            except Exception:
+                accepted = False
+            if accepted and missing is not None:
+                rep.violation("network", "network:accepted:undeclared-%s%s" % ("reactant" if missing in left else "product",
+                                                                               "" if left else "-with-empty-reactant-side"),
+                              {"equation": text, "declared": declared, "undeclared": missing, "built-by": how})
+            elif not accepted and missing is None:
+                rep.violation("network", "network:rejected-valid", {"equation": text, "declared": declared, "built-by": how})
+            stats["accepted" if accepted else "refused"] += 1
+            if missing is not None and not left:
+                stats["tried_undeclared_product_with_empty_reactant_side"] += 1
+            if missing is None:
+                stats["tried_valid"] += 1
+    rep.extra["network_membership"] = stats
+    if stats["tried_undeclared_product_with_empty_reactant_side"] == 0 or stats["tried_valid"] == 0:
+        raise MachineryError("network membership check is vacuous: %s" % stats)
+
+
 def matrix_checks(rep, cases, rng):
     """build_*_matrix of librdengine (the link to the engine tables)."""
     species = [Species(l) for l in LABELS]
@@ -217,6 +264,8 @@ def run(tier, selftest=False, only=None):
     with rep.guard("network", None):
         pass
     network_checks(rep, rng)
+    with rep.guard("network", None):
+        network_membership(rep, cases, rng, 1500)
     matrix_checks(rep, cases, rng)
     rep.traces = len(cases)
     rep.extra["equations"] = len(cases)
